@@ -22,7 +22,7 @@ def def_positions(text, stdlib):
     return [(it["name"], it["line"], it["start"], it["end"]) for it in f["items"] if it["k"] == "def"] if f["ok"] else []
 
 
-def evaluate(run, name, module, verdict, cases, stdlib, h1):
+def evaluate(run, name, module, verdict, cases, stdlib, h1, to_coq=None):
     """cases: list of {"id": int, "steps": [...], ...}.  Returns per-case dict with
     obs, codes, and the step index map."""
     h1_cases = [{"id": c["id"], "ops": [core.h1_op(s) for s in c["steps"]]} for c in cases]
@@ -33,7 +33,7 @@ def evaluate(run, name, module, verdict, cases, stdlib, h1):
         if r is None or r.get("hang"):
             meta[c["id"]] = {"hang": True}
             continue
-        term, idx, panics = core.coq_wcase(c, r["obs"], stdlib)
+        term, idx, panics = (to_coq or core.coq_wcase)(c, r["obs"], stdlib)
         meta[c["id"]] = {"idx": idx, "panics": panics, "obs": r["obs"]}
         terms.append((c["id"], term))
     codes = core.eval_in_coq(name, module, verdict, terms)
